@@ -9,6 +9,7 @@
    checked  G c = B y  exactly, so "returns Ok c -> c solves the normal equations" holds by
    construction ([gauss_solve_sound]).  [QS] is the execution instance: the field of rationals.
    No real numbers are needed in this file (see Lib/LsqR.v for the instances of [formally_real]). *)
+From Coq Require Import Lqa.
 From LV Require Export Lib.BigSum.
 
 Definition formally_real (S : Scalar) : Prop :=
@@ -252,3 +253,29 @@ Definition q_solve : Z -> Z -> (Z -> Z -> QS) -> (Z -> QS) -> result (list QS) :
 Theorem q_solve_sound k N B y c :
   q_solve k N B y = Ok c -> Z.of_nat (length c) = k /\ NE k N B y (nthZ c).
 Proof. exact (gauss_solve_sound QS QS_ring Qcinv qc_eqb qc_eqb_sound k N B y c). Qed.
+
+(* the rationals are formally real (no real numbers involved) *)
+Lemma qc_sq_nonneg (x : Qc) : (0 <= this (x * x)%Qc)%Q.
+Proof. unfold Qcmult, Q2Qc; cbn [this]. rewrite Qred_correct. unfold Qle, Qmult; cbn. nia. Qed.
+Lemma qc_this_add (a b : Qc) : (this (a + b)%Qc == this a + this b)%Q.
+Proof. unfold Qcplus, Q2Qc; cbn [this]. apply Qred_correct. Qed.
+Lemma qc_sum_nonneg n (f : nat -> Qc) : (0 <= this (@sumn QS n (fun i => (f i * f i)%Qc)))%Q.
+Proof. induction n as [|n IH]; cbn [sumn QS kadd k0 K].
+  - cbn. apply Qle_refl.
+  - rewrite qc_this_add. pose proof (qc_sq_nonneg (f n)). lra. Qed.
+Lemma qc_eq0 (a : Qc) : (this a == 0)%Q -> a = Q2Qc 0.
+Proof. intros H. apply Qc_is_canon. rewrite H. cbn. reflexivity. Qed.
+Lemma qc_sumsq_zero n (f : nat -> Qc) :
+  @sumn QS n (fun i => (f i * f i)%Qc) = Q2Qc 0 -> forall i, (i < n)%nat -> f i = Q2Qc 0.
+Proof. induction n as [|n IH]; intros H i Hi; [lia|]. cbn [sumn QS kadd k0 K] in H.
+  pose proof (qc_sum_nonneg n f) as Ha. pose proof (qc_sq_nonneg (f n)) as Hb.
+  assert (E : (this (@sumn QS n (fun i => (f i * f i)%Qc)) + this (f n * f n)%Qc == 0)%Q).
+  { rewrite <- qc_this_add. cbn [QS K kmul] in *. rewrite H. cbn. reflexivity. }
+  destruct (Nat.eq_dec i n) as [->|Hne].
+  - assert (E2 : (this (f n * f n)%Qc == 0)%Q) by lra.
+    unfold Qcmult, Q2Qc in E2; cbn [this] in E2. rewrite Qred_correct in E2.
+    apply Qmult_integral in E2. apply qc_eq0. tauto.
+  - apply IH; [|lia]. apply qc_eq0. lra. Qed.
+Theorem QS_formally_real : formally_real QS.
+Proof. intros N f H p Hp. unfold sumZ in H. rewrite <- (Z2Nat.id p) by lia.
+  apply (qc_sumsq_zero (Z.to_nat N) (fun i => f (Z.of_nat i)) H (Z.to_nat p)). lia. Qed.
